@@ -984,6 +984,14 @@ impl<T: Fam> Runner for R<T> {
                 serde_lexpr::to_writer(&mut buf, x).map_err(|e| e.to_string())?;
                 serde_lexpr::from_reader::<T>(&buf[..]).map_err(|e| e.to_string())
             })),
+            // the _custom entry points, given the default option sets, are the same functions
+            ("to_string_custom/from_str_custom", Box::new(|x: &T| serde_lexpr::to_string_custom(x, lexpr::print::Options::default()).map_err(|e| e.to_string()).and_then(|s| serde_lexpr::from_str_custom::<T>(&s, lexpr::parse::Options::default()).map_err(|e| format!("text {:?}: {}", crate::util::trunc(&s, 120), e))))),
+            ("to_vec_custom/from_slice_custom", Box::new(|x: &T| serde_lexpr::to_vec_custom(x, lexpr::print::Options::default()).map_err(|e| e.to_string()).and_then(|s| serde_lexpr::from_slice_custom::<T>(&s, lexpr::parse::Options::default()).map_err(|e| e.to_string())))),
+            ("to_writer_custom/from_reader_custom", Box::new(|x: &T| {
+                let mut buf = Vec::new();
+                serde_lexpr::to_writer_custom(&mut buf, x, lexpr::print::Options::default()).map_err(|e| e.to_string())?;
+                serde_lexpr::from_reader_custom::<T>(&buf[..], lexpr::parse::Options::default()).map_err(|e| e.to_string())
+            })),
         ];
         for (name, f) in paths {
             match crate::util::guard(|| f(&x)) {
